@@ -514,6 +514,7 @@ func bubbleFull(c *explore.Ctx, pc *world.ProducerChain) (out outcome) {
 	reported := uint64(0)
 	crashes := 0
 	armed := false
+	var transient *world.Fail
 	onWrite := func(idx int, w world.Write) bool {
 		if !armed {
 			return false
@@ -543,6 +544,20 @@ func bubbleFull(c *explore.Ctx, pc *world.ProducerChain) (out outcome) {
 			return &world.Fail{Clause: "monotone-across-restart", Msg: fmt.Sprintf("DA-included height was %d before the restart and is %d after it", reported, got)}
 		}
 		reported = got
+		// what the restarted node reports before anything is redelivered must already be sound
+		if fl := checkIncluded(f.N, pc.Initial, got); fl != nil {
+			fl.Msg = "directly after the restart: " + fl.Msg
+			return fl
+		}
+		// between any two steps of the loops: the reported height never exceeds the chain height
+		ff.Sched.OnStep = func() {
+			if transient != nil || f.N.Fate.Crashed() {
+				return
+			}
+			if inc, h := f.N.M.GetDAIncludedHeight(), f.N.Height(); inc > h {
+				transient = &world.Fail{Clause: "not-above-chain-height", Msg: fmt.Sprintf("between two steps of the loops (after scheduler step %d, last: %s) the node reports DA-included height %d while its chain height is %d", ff.Sched.Steps, ff.Sched.Last(), inc, h)}
+			}
+		}
 		armed = true
 		return nil
 	}
@@ -557,6 +572,9 @@ func bubbleFull(c *explore.Ctx, pc *world.ProducerChain) (out outcome) {
 		return fail(fl)
 	}
 	observe := func(when string) *world.Fail {
+		if transient != nil {
+			return transient
+		}
 		if len(f.Fatal) > 0 {
 			return &world.Fail{Clause: "node-halts", Msg: when + ": " + f.Fatal[0]}
 		}
@@ -750,6 +768,39 @@ func TestCheck(t *testing.T) {
 			caps = append(caps, "full-node part "+pt+": "+st.Capped)
 		}
 	}
+	// full-node part, interleaving window: the in-order placement without crash or restart, but with two scheduling
+	// deviations (one to hold a loop back, one to let it run inside another loop's write sequence); the invariant
+	// "reported <= chain height" is evaluated between any two steps
+	budW := vf.Pick(r, map[string]int{"sched": 2, "place": 0, "crash": 0, "restart": 0}, map[string]int{"sched": 3, "place": 1, "crash": 1, "restart": 0})
+	var windowRuns int64
+	for _, pt := range patternsB {
+		pc, err := world.BuildChain(pt+"e", 1)
+		if err != nil {
+			r.EngineError(err.Error())
+			continue
+		}
+		left := time.Until(deadline)
+		if left <= 0 {
+			caps = append(caps, "deadline before full-node window pattern "+pt)
+			break
+		}
+		st := explore.Explore(explore.Config{Budgets: budW, Total: vf.Pick(r, 2, 3), Deadline: left, ShardDepth: 2}, func(c *explore.Ctx) {
+			o := bodyFull(t, c, pc)
+			if o.fail != nil {
+				r.Report(vf.Violation{Clause: o.fail.Clause, Tags: append(o.tags, "full-node", "interleaving-window"), Msg: fmt.Sprintf("[full node, chain genesis+%q] %s\n events: %v", pt, o.fail.Msg, o.events), Cost: c.Cost(), History: map[string]any{"Part": "full", "Pattern": pt, "Choices": c.Choices()}})
+				r.Outcome("W:fail:" + o.fail.Clause)
+				return
+			}
+			r.Outcome("W:" + o.sig)
+		})
+		windowRuns += st.Executions
+		total.Executions += st.Executions
+		total.Points += st.Points
+		total.Nondet = append(total.Nondet, st.Nondet...)
+		if st.Capped != "" {
+			caps = append(caps, "full-node window part "+pt+": "+st.Capped)
+		}
+	}
 	for _, m := range total.Nondet {
 		r.EngineError("nondeterminism: " + m)
 	}
@@ -757,6 +808,6 @@ func TestCheck(t *testing.T) {
 		Evaluations: total.Executions, DistinctNontrivial: int64(r.DistinctOutcomes()), States: total.Executions, Transitions: total.Points,
 		Rule:       "sequencer part: chain contents × loop start order × DA answers × crash points × clean restarts within the budgets, real submission and inclusion loops under virtual time; full-node part: every assignment of the genuine blobs to 3 DA heights × crash points × clean restart, real retrieve/sync/inclusion loops; distinct = distinct outcome signatures",
 		Exhaustive: true, Caps: caps,
-		Bounds:     map[string]any{"max_total_deviations": totalDev, "budgets_sequencer": budA, "budgets_full": budB, "full_patterns": patternsB, "sequencer_executions": stA.Executions},
+		Bounds:     map[string]any{"max_total_deviations": totalDev, "budgets_sequencer": budA, "budgets_full": budB, "full_patterns": patternsB, "sequencer_executions": stA.Executions, "budgets_full_window": budW, "full_window_executions_this_shard": windowRuns},
 	})
 }
